@@ -47,6 +47,10 @@ EXPLANATION += (
     ' Round 5: settings are forwarded at every call (R-FWD/parameter-forwarded).'
 )
 
+EXPLANATION += (
+    ' Round 7: no jump out of a finally block discards a failure (R-IDIOM/jump-in-finally, package-wide).'
+)
+
 RULE_TEXT = (
     "one obligation per (rule, construct): spawn site x collection, exit-"
     "code test, removal site, handler, (stage, output write, spawn point), "
@@ -169,6 +173,15 @@ def check(ctx):
     check_blob_to_hdf5(ctx)
     # settings this property depends on are handed down every call
     # chain, never left to a callee's default (sa/rules/forwarding.py)
+    # no jump out of a `finally:` block discards a worker's failure
+    from ..rules.idioms import check_jump_in_finally
+    n_j = 0
+    for fi_ in ctx.db.iter_functions():
+        if not fi_.module.short.startswith('gpu_utils'):
+            n_j += check_jump_in_finally(ctx, fi_)
+    ctx.ok('R-IDIOM/jump-in-finally', 'package', 'package',
+           'no return / break / continue inside a finally block',
+           nontrivial=False)
     from ..rules.forwarding import check_forwarding
     check_forwarding(ctx, {'n_processors', 'output_list', 'output_lock'})
 
